@@ -111,6 +111,7 @@ type MapObj struct {
 	ID      int
 	Entries []mapEntry
 	KT, VT  types.Type
+	shadow  *Object // cell used by the race detector for the whole map
 }
 
 type MapV struct{ M *MapObj } // M==nil => nil map
